@@ -91,10 +91,26 @@ func streamCli() {
 		order = map[int]int{}
 		var ops, obs []string
 		prev := map[int]fileView{}
+		// some configuration files are symbolic links to files kept elsewhere (shared between directories): edits go to the target,
+		// and it is the target's modification time that counts
+		ext := root + "-ext"
+		linked := map[int]bool{}
+		for i := range ents {
+			linked[i] = rng.Intn(3) == 0
+		}
 		putcfg := func(i int) {
 			tick()
 			p := filepath.Join(root, ents[i].cfgPath(i))
 			os.MkdirAll(filepath.Dir(p), 0755)
+			if linked[i] {
+				os.MkdirAll(ext, 0755)
+				target := filepath.Join(ext, fmt.Sprintf("e%d.yaml", i))
+				os.WriteFile(target, []byte(ents[i].yaml(i)), 0644)
+				if _, err := os.Lstat(p); err != nil {
+					os.Symlink(target, p)
+				}
+				return
+			}
 			os.WriteFile(p, []byte(ents[i].yaml(i)), 0644)
 		}
 		record := func(code int, w []string) {
@@ -275,6 +291,7 @@ func streamCli() {
 			record(0, nil)
 		}
 		os.RemoveAll(root)
+		os.RemoveAll(ext)
 		dirLoc = time.UTC
 		fmt.Fprintf(out, "CASE cli-%d-%d %d steps :: %s\n", seed, h, len(ops), strings.Join(ops, "; "))
 		fmt.Fprintf(out, "COQ ([%s], [%s])\n", strings.Join(ops, "; "), strings.Join(obs, "; "))
